@@ -36,7 +36,8 @@ def valid_program(rng):
     n = rng.choice([3, 6, 10, 16])
     ls = proggen.program(rng, size=n, conditionals=False, macros=False)
     # a stable frame: a label that exists once, a far label, a macro that needs an argument
-    head = ["main_label: nop", ".macro needsarg", "  ldi r16, @0", ".endm", ".set framevar = 1", ".def framereg = r20", ".equ frameequ = 3"]
+    # (there is no line continuation: a comment ending in a backslash is a comment and a line like any other)
+    head = ["main_label: nop ; keep \\", ".macro needsarg", "  ldi r16, @0", ".endm", ".set framevar = 1", ".def framereg = r20 // c:\\inc\\", ".equ frameequ = 3"]
     tail = [".cseg", ".org 0x400", "far_label: nop"]
     return head + [l for l in ls if not l.startswith(".org") and "seg" not in l and not l.startswith(".message") and not l.startswith(".warning")] + tail
 
@@ -160,7 +161,7 @@ def run(res):
         mcases.append(("\n".join(ls) + "\n", "\n".join(plain) + "\n", expect))
     # very long sources: line numbers are not limited to 16 bits (blank and comment lines cost the model nothing)
     for at in (255, 256, 65535, 65536, 65537, 65538, 70000, 131072, 131073, 200000):
-        pad = [rng.choice(["", "; c", "\t", "  // x"]) for _ in range(at - 1)]
+        pad = [rng.choice(["", "; c", "\t", "  // x", "; c:\\avr\\", "// \\", ";\\"]) for _ in range(at - 1)]
         for kind, v in (("operand-range", "  ldi r16, 300"), ("syntax", "  this is not assembly"), ("undefined-symbol-data", "  .dw nosuch"),
                         ("error-directive", ".error \"late\""), ("duplicate-label", "main_label: nop"), ("undefined-symbol-if", ".if nosuch\n.endif")):
             if at > 70000 and kind not in ("operand-range", "error-directive"):
